@@ -378,12 +378,14 @@ class Parser:
         it and to move the result into dest.
         """
         code_gen = code_gen or self._code_gen
-        if self._current_token.content == '{':
+        # A quoted string can contain the same text as a mark.
+        is_mark = self._current_token.is_a(TokenTypes.MARK)
+        if is_mark and self._current_token.content == '{':
             return self.next_token() and self._rvalue_curly(dest, code_gen)
-        if self._current_token.content == '[':
+        if is_mark and self._current_token.content == '[':
             return self._rvalue_fn_call(dest, code_gen)
         move_inst = OpCode.MOVE
-        uminus = self._current_token.content == '-'
+        uminus = is_mark and self._current_token.content == '-'
         if uminus:
             self.next_token()
         value = self._current_constant()
